@@ -106,6 +106,22 @@ def _entry(e, mod):
     raise ValueError(t)
 
 
+def loosen(rst, entries, spec):
+    """an entry whose heading no property prescribes (add_test without NAME): keep that there is a CTest entry at that position, blank
+    what it is headed with — in the page and in the entry list alike.  `spec` says which positions are loose."""
+    loose = [i for i, e in enumerate(spec) if e.get('loose')]
+    if not loose: return rst, entries
+    has_module = any(e['t'] == 'module' for e in spec)
+    lines = rst.split("\n"); heads = [i for i, l in enumerate(lines) if l.startswith(".. ")]
+    for i in loose:
+        b = i + (0 if has_module else 1)        # the module block comes first on the page
+        if b < len(heads) and lines[heads[b]].startswith(".. function:: "): lines[heads[b]] = ".. function:: <positional add_test>"
+    ents = [dict(e) for e in entries]
+    for i in loose:
+        if i < len(ents) and ents[i].get('t') == 'ctest': ents[i]['name'] = '<positional>'; ents[i]['params'] = None; ents[i].pop('loose', None)
+    return "\n".join(lines), ents
+
+
 # ---- projections -------------------------------------------------------------------------------------------
 def split_blocks(rst):
     """top-level blocks of a page: list of (heading line, [lines of the block]); heading lines start with '.. ' at
